@@ -239,6 +239,12 @@ def run_paths(stmts, atoms, env=None, limit=256, substitute=True):
                         if isinstance(te, ast.Name):
                             env[te.id] = cv if cv is not UNKNOWN else (
                                 _subst(ve, env) if substitute else ve)
+                elif isinstance(t, (ast.Tuple, ast.List)) and isinstance(
+                        _val(s0.value, atoms, env), tuple) and \
+                        len(_val(s0.value, atoms, env)) == len(t.elts):
+                    for te, cv in zip(t.elts, _val(s0.value, atoms, env)):
+                        if isinstance(te, ast.Name):
+                            env[te.id] = cv
                 else:
                     for x in ast.walk(t):
                         if isinstance(x, ast.Name) and isinstance(x.ctx, ast.Store):
